@@ -165,8 +165,8 @@ def stepInject (st : St) (single : Bool) (tyW keyW impl : String) : St × String
     else if missingOracle then (st2, s!"DIFF model key string {sOf (ks.getD [])} has no oracle hash (canonical strings disagree)")
     else (st2, verdict model impl)
 
-/-- guard of the known finding `C34-float-literal-rounding`: the literal has more than 15 significant digits
-or its integer significand needs a power of ten beyond 10^22 — outside the range in which serde_json's
+/-- guard of the known finding `C34-float-literal-rounding`: the literal is written with more than 15 digits
+(leading zeros aside, trailing zeros included) or its integer significand needs a power of ten beyond 10^22 — outside the range in which serde_json's
 default float parser (no `float_roundtrip`) is exact -/
 def floatLitOutsideExactRange (lit : String) : Bool :=
   let m := if lit.startsWith "-" then (lit.drop 1).toString else lit
@@ -176,11 +176,9 @@ def floatLitOutsideExactRange (lit : String) : Bool :=
   let (ip, fr) := match mant.splitOn "." with
     | [a, b] => (a, b)
     | _ => (mant, "")
-  let frT := (fr.toList.reverse.dropWhile (· == '0')).reverse
-  let digits := (ip.toList ++ frT).dropWhile (· == '0')
-  let digits := if frT.isEmpty then (digits.reverse.dropWhile (· == '0')).reverse else digits
-  let trailingZerosOfInt := if frT.isEmpty then (ip.toList.reverse.takeWhile (· == '0')).length else 0
-  let e10 : Int := ex - frT.length + trailingZerosOfInt
+  -- serde_json accumulates every written digit (trailing zeros included) into the significand
+  let digits := (ip.toList ++ fr.toList).dropWhile (· == '0')
+  let e10 : Int := ex - fr.length
   decide (digits.length > 15) || decide (e10.natAbs > 22)
 
 def step (st : St) (line : String) : St × String :=
